@@ -30,18 +30,25 @@ RangeDocumented == {"port", "batch_size", "fault_percentage", "num_workers"}
 Written(w, k) == w[k] # Absent
 StatsOn(w) == w.client_stats \in {"on", "yes"}
 
+\* valid seeds: "ok"; "digits" (64 hex digits that all happen to be decimal); "zeros" (64 zeros) and "lzdigits" (60 zeros
+\* + 4 decimal digits). A YAML scalar resolver types the last two as small INTEGERS and drops their text, so a loader
+\* cannot know what was written: it may refuse them (the code does, for the file source) but must never run with
+\* another seed (zero-padding or re-formatting an integer would turn "seed: 1234" into a valid seed)
+SeedValid == {"ok", "digits", "zeros", "lzdigits"}
+SeedTextLost == {"zeros", "lzdigits"}
+
 \* start-up MUST be refused
 MustRefuse(w) ==
     \/ ~Written(w, "port")
     \/ \E k \in RangeDocumented : Written(w, k) /\ ~InDocRange(k, w[k])
-    \/ w.seed \notin {"ok", "digits"}                  \* missing, wrong length, not hex ("digits": a valid seed whose 64
-                                                      \* hex digits all happen to be decimal)
+    \/ w.seed \notin SeedValid                         \* missing, wrong length (also digit-only: "1234", "0"), not hex
     \/ w.interface # "ok"                             \* missing
     \/ w.unknown_key                                  \* file only
 
 \* start-up MUST succeed with exactly the written values
 MustRun(w) ==
     /\ ~MustRefuse(w)
+    /\ w.seed \notin SeedTextLost
     /\ \A k \in IntKeys : Written(w, k) => InDocRange(k, w[k])
     /\ StatsOn(w) => w.persistence_directory = "dir"
 
